@@ -155,7 +155,11 @@ pub fn run_check(check: &dyn Check, tier: Tier) -> i32 {
     let seed = base_seed();
     let id = check.id();
     println!("[{id}] tier={} VERIF_SEED={seed}", tier.name());
-    let kf = load_known_findings();
+    let mut kf = load_known_findings();
+    if std::env::var_os("VERIF_IGNORE_KNOWN").is_some() {
+        // experiments only: report known findings as violations
+        kf.open.clear();
+    }
     let budget = check.budget(tier);
     let scale: f64 = std::env::var("VERIF_SCALE")
         .ok()
